@@ -360,7 +360,7 @@ func checkUnique(c *core.Ctx, l *core.Ledger) {
 				return false
 			}
 			fld, _ := core.LoadedField(mu.Map)
-			return fld != nil && fld.Name() == field
+			return fld != nil && core.FieldName(fld) == field
 		}
 	}
 	isAppendOf := func(elem string) func(ssa.Instruction) bool {
